@@ -8,7 +8,7 @@ RBUFS = [0, 1, 125, 126, 256, 4096]
 CHUNKS = ["whole", "byte", "half", "frame", "hdr", "rand"]
 
 
-def concretise(progs, pid, tier, seed, mult, rbufs=RBUFS, chunks=CHUNKS, tail=3):
+def concretise(progs, pid, tier, seed, mult, rbufs=RBUFS, chunks=CHUNKS, tail=3, long_tail=0.0):
     """Turn TLC's abstract programs into driver programs: pick buffer sizes,
     transport chunkings, payload seeds and cut offsets inside the abstract
     class (`mult` concretisations per abstract program)."""
@@ -25,7 +25,7 @@ def concretise(progs, pid, tier, seed, mult, rbufs=RBUFS, chunks=CHUNKS, tail=3)
                 q["chunk"] = "rand"
             big = max([o.get("k", 0) for o in p.get("reads", [])] + [0])
             q["seed"] = rnd.randrange(1, 1 << 30)
-            q["tail"] = tail
+            q["tail"] = tail if rnd.random() > long_tail else 1003
             c = p.get("cut")
             if not c or c.get("frame", 0) == 0:
                 q["cut"] = None
@@ -102,7 +102,7 @@ def reader_run(pid, tier, mcs, mult, known_match=None, rbufs=RBUFS, chunks=CHUNK
     if max_progs and len(progs) > max_progs:
         rnd = random.Random(seed)
         progs = rnd.sample(progs, max_progs)
-    conc = concretise(progs, pid, tier, seed, mult, rbufs, chunks, tail)
+    conc = concretise(progs, pid, tier, seed, mult, rbufs, chunks, tail, long_tail=(0.01 if pid in ("C05", "C07") else 0.0))
     if extra:
         conc += extra(seed)
     byid = {p["id"]: p for p in conc}
